@@ -118,6 +118,7 @@ func (r *Reconnector) arm(addr string, state *reconnectState) {
 // attemptReconnect attempts to reconnect to the given address. gen identifies
 // the timer that fired.
 func (r *Reconnector) attemptReconnect(addr string, gen uint64) {
+	verifYield("peer.attemptReconnect.enter")
 	r.mu.Lock()
 	state, exists := r.states[addr]
 	if !exists || r.closed {
